@@ -2,7 +2,7 @@
    This file contains only the property theorems (each closed by [exact]) and Print Assumptions. *)
 From Coq Require Import List NArith Bool String Ascii.
 Import ListNotations.
-From SygmaV Require Import Model.C12 Proofs.C12 Proofs.C12_Conc.
+From SygmaV Require Import Model.C12 Proofs.C12 Proofs.C12_Conc Proofs.C12_Other.
 Local Open Scope string_scope.
 Local Open Scope N_scope.
 Local Open Scope list_scope.
@@ -362,4 +362,107 @@ Example C12_conc_nonvacuous :
   judge_conc ths (conc_obs g) U [[201]; [102]] false O = false /\
   judge_conc ths (conc_obs g) U (conc_final_obs g U) true O = false /\
   judge_conc ths (conc_obs g) U (conc_final_obs g U) false 3 = false.
+Proof. vm_compute. repeat split. Qed.
+
+(* ---- the OTHER operations of the communication layer: CloseSession, Broadcast / send to peers, the
+   health check (Broadcast of an Unknown-type message + CloseSession), a stream handler run on a stream
+   that carries no message.  The property names three things that decide who receives a message -
+   subscribe, cancel, and the (session, type) of the message; everything else is a frame condition:
+   who is subscribed is not changed by any other operation.  [XOther k] is such an operation inside
+   a history (xop) or an interleaved script (xfev).
+
+   The table and the live subscriptions after ANY history are those of the history with the other
+   operations taken out, for the model of the code and for the specification ... *)
+Theorem C12_other_ops_frame : forall xs,
+  run_xc unwrap c_init xs = run_c unwrap c_init (xops_of xs)
+  /\ run_xa a_init xs = run_a a_init (xops_of xs).
+Proof. exact other_ops_frame. Qed.
+Print Assumptions C12_other_ops_frame.
+
+(* ... step by step: the operation changes no state and no subscriber list ... *)
+Theorem C12_other_op_frame_step : forall uw k cs st U,
+  step_xc uw cs (XOther k) = cs /\ step_xa st (XOther k) = st
+  /\ view_c U (fst (step_xc uw cs (XOther k))) = view_c U (fst cs)
+  /\ view_a U (fst (step_xa st (XOther k))) = view_a U (fst st).
+Proof. exact other_frame. Qed.
+Print Assumptions C12_other_op_frame_step.
+
+(* ... so GetSubscribers after a history with other operations returns the specification's live
+   channels of the history without them, and a history of other operations only leaves every state as
+   it was. *)
+Theorem C12_other_ops_subscribers : forall xs s t,
+  wf_ops (xops_of xs) = true ->
+  subscribers s t (fst (run_xc unwrap c_init xs)) = spec_subscribers s t (fst (run_a a_init (xops_of xs))).
+Proof. exact other_ops_frame_subscribers. Qed.
+Print Assumptions C12_other_ops_subscribers.
+
+Theorem C12_others_only : forall ks cs st,
+  run_xc unwrap cs (map XOther ks) = cs /\ run_xa st (map XOther ks) = st.
+Proof. exact others_only. Qed.
+Print Assumptions C12_others_only.
+
+(* The judge of a history with other operations (the runner looks at the subscriber lists after EVERY
+   operation, the other ones included) accepts the model's trace, and accepts an observation list iff
+   it is the specification's trace - whose entry for the n-th operation shows the live subscriptions
+   of the history without the other operations up to there, and no receipt for an other operation. *)
+Theorem C12_xjudge_model : forall U xs,
+  wf_ops (xops_of xs) = true -> judge_xops U xs (xtrace_c unwrap U c_init xs) = true.
+Proof. exact xjudge_model. Qed.
+Print Assumptions C12_xjudge_model.
+
+Theorem C12_xjudge_sound : forall U xs impl,
+  judge_xops U xs impl = true <-> map (fun o => (o_view o, o_got o)) impl = xtrace_a U a_init xs.
+Proof. exact xjudge_sound. Qed.
+Print Assumptions C12_xjudge_sound.
+
+Theorem C12_xtrace_spec : forall U xs st n x,
+  nth_error xs n = Some x ->
+  exists g, nth_error (xtrace_a U st xs) n
+            = Some (view_a U (fst (run_a st (xops_of (firstn (S n) xs)))), g)
+            /\ (forall k, x = XOther k -> g = []).
+Proof. exact xtrace_a_nth. Qed.
+Print Assumptions C12_xtrace_spec.
+
+(* Interleaved scripts with other operations between the messages of long-lived streams: what every
+   channel is handed is what the script WITHOUT them hands it (model and specification), the judge
+   is the judge of that script, accepts the model, and means the specification's receipts. *)
+Theorem C12_fanix_frame : forall xs c,
+  recvix_c c_init xs c = recvi_c c_init (xfevs_of xs) c
+  /\ recvix_a a_init xs c = recvi_a a_init (xfevs_of xs) c.
+Proof. exact (fun xs c => conj (recvix_c_strip xs c) (recvix_a_strip xs c)). Qed.
+Print Assumptions C12_fanix_frame.
+
+Theorem C12_fanix_judge_model : forall xs chans,
+  wf_ops (fops (xfevs_of xs)) = true ->
+  judge_fanix xs chans (map (recvix_c c_init xs) chans) = true.
+Proof. exact fanix_judge_model. Qed.
+Print Assumptions C12_fanix_judge_model.
+
+Theorem C12_fanix_judge_sound : forall xs chans impl,
+  judge_fanix xs chans impl = true <->
+  Forall2 (fun c got => forall x, count_m x got = count_m x (recvi_a a_init (xfevs_of xs) c)) chans impl.
+Proof. exact fanix_judge_sound. Qed.
+Print Assumptions C12_fanix_judge_sound.
+
+(* Non-vacuity: two subscribers of a hyphenated session, CloseSession of that very session, a
+   broadcast, a health check: the hypotheses hold, the model's trace keeps both subscribers and the
+   judge accepts it; a trace in which CloseSession emptied the session's subscriber list is rejected,
+   and so are receipts of an interleaved script that stop after the CloseSession. *)
+Example C12_other_nonvacuous :
+  let xs := [XOp (Sub "1-2-100" 1 5 7); XOp (Sub "1-2-100" 1 6 8); XOther (OClose "1-2-100");
+             XOp (Deliver "1-2-100" 1); XOther (OBcast "1-2-100" 1 [1; 2]); XOther (OHealth [1; 4]);
+             XOp (Unsub 0); XOther (OClose "1-2"); XOp (Deliver "1-2-100" 1)] in
+  let U := [("1-2-100", 1)] in
+  wf_ops (xops_of xs) = true /\
+  map (fun o => (o_view o, o_got o)) (xtrace_c unwrap U c_init xs) =
+    [([[7]], []); ([[7; 8]], []); ([[7; 8]], []); ([[7; 8]], [7; 8]); ([[7; 8]], []); ([[7; 8]], []);
+     ([[8]], []); ([[8]], []); ([[8]], [8])] /\
+  judge_xops U xs (xtrace_c unwrap U c_init xs) = true /\
+  judge_xops U xs (map (fun v => mk_obs "" [fst v] (snd v))
+     [([7], []); ([7; 8], []); ([], []); ([], []); ([], []); ([], []); ([], []); ([], []); ([], [])]) = false /\
+  (let m := fun p => XEv (FMsg ("1-2-100", 1, p, 1)) in
+  let ys := [XEv (FOp (Sub "1-2-100" 1 5 7)); m "a"; XOth (OClose "1-2-100"); m "b"] in
+  map (recvix_c c_init ys) [7] = [[("1-2-100", 1, "a", 1); ("1-2-100", 1, "b", 1)]] /\
+  judge_fanix ys [7] [[("1-2-100", 1, "b", 1); ("1-2-100", 1, "a", 1)]] = true /\
+  judge_fanix ys [7] [[("1-2-100", 1, "a", 1)]] = false).
 Proof. vm_compute. repeat split. Qed.
